@@ -43,8 +43,9 @@ def _wrap(obj: Any, name: str, label: Callable[..., str | None], after: bool = F
 def instrument(app) -> None:
     o, b, sb = app.orchestrator, app.broker, app.state_backend
     _wrap(sb, "upsert_invocations", lambda invs: "upsert")
-    _wrap(sb, "set_result", lambda *a, **k: "set_result")
-    _wrap(sb, "set_exception", lambda *a, **k: "set_exception")
+    # recorded AFTER the call returns: a store that raises is not an effect
+    _wrap(sb, "set_result", lambda *a, **k: "set_result", after=True)
+    _wrap(sb, "set_exception", lambda *a, **k: "set_exception", after=True)
     _wrap(sb, "add_history", lambda i, rec, *a, **k: f"hist_enqueue {rec.status.value}")
     _wrap(sb, "add_histories", lambda invs, rec, *a, **k: f"hist_enqueue {rec.status.value}")
     _wrap(o, "_register_new_invocations", lambda *a, **k: "register")
@@ -53,6 +54,7 @@ def instrument(app) -> None:
     _wrap(o, "index_arguments_for_concurrency_control", lambda *a, **k: "index_args")
     _wrap(o, "increment_invocation_retries", lambda *a, **k: "incr_retries")
     _wrap(o, "set_up_invocation_auto_purge", lambda *a, **k: "auto_purge_setup")
+    _wrap(o, "register_runner_heartbeats", lambda rids, *a, **k: "heartbeat " + ",".join(sorted(rids)))
     _wrap(b, "route_invocation", lambda *a, **k: "push")
     orig_retrieve = b.retrieve_invocation
     if not getattr(orig_retrieve, "_verif_wrapped", False):
@@ -94,6 +96,9 @@ def extract(tmp: str) -> dict[str, list[str]]:
     ok_t = app.task(T.prog_body)
     cc_t = app.task(T.keyed, running_concurrency=C.ARGUMENTS)
     ctx = rctx("rT")
+    # a live runner asking twice whether it may run the global services: it must refresh its own heartbeat EVERY time
+    live = rctx("rLive")
+    progs["atomicCheckTwice"] = trace(lambda: (app.orchestrator.should_run_atomic_service(live), app.orchestrator.should_run_atomic_service(live)))
     progs["clientSingle"] = trace(lambda: plain(1))
     progs["clientSingleCC"] = trace(lambda: cc_t("a"))
     progs["clientBatch"] = trace(lambda: plain.parallelize([(1,), (2,)]))
@@ -107,6 +112,22 @@ def extract(tmp: str) -> dict[str, list[str]]:
     list(app.orchestrator.get_invocations_to_run(1, ctx))
     i2 = app.state_backend.get_invocation(inv.invocation_id)
     progs["runFail"] = trace(lambda: i2.run(ctx))
+    # the same two runs when the outcome store FAILS (storage fault): no final status may be published
+    sb = app.state_backend
+    for name, mode, attr in (("runOkStoreFault", "ok", "_set_result"), ("runFailStoreFault", "fail", "_set_exception")):
+        inv = ok_t(mode)
+        list(app.orchestrator.get_invocations_to_run(1, ctx))
+        i2 = app.state_backend.get_invocation(inv.invocation_id)
+        orig = getattr(sb, attr)
+
+        def boom(*a, **k):
+            raise OSError("injected storage fault")
+
+        setattr(sb, attr, boom)
+        try:
+            progs[name] = trace(lambda: i2.run(ctx))
+        finally:
+            setattr(sb, attr, orig)
     rt = app.task(T.prog_retry, max_retries=2)
     inv = rt("x")
     list(app.orchestrator.get_invocations_to_run(1, ctx))
